@@ -259,5 +259,21 @@ pub open spec fn run_and_store<I: Send + Sync + SystemInput + 'static, O: Send +
 //@lift| ensures r.systems.view() == Map::<SysName, Option<BoxedSystem<I, O>>>::empty(),
 //@mapor match id_mapped_systems.systems.get_mut
 
+// ---- register_named_system_from: stores an initialised system under the name (overwriting what was there) -----------------------
+pub uninterp spec fn take_init_eff<I, O>(w: World, cb: CallbackSystem<I, O>) -> (World, Option<BoxedSystem<I, O>>);
+impl<I: Send + Sync + SystemInput + 'static, O: Send + Sync + 'static> CallbackSystem<I, O> {
+    // CallbackSystem::take_initialized (proved in unit `callbacks`): the boxed system, initialised if it was New; None for an Empty slot
+    #[verifier::external_body]
+    pub fn take_initialized(self, world: &mut World) -> (r: Option<BoxedSystem<I, O>>)
+        ensures (*final(world), r) == take_init_eff::<I, O>(*old(world), self),
+    { unimplemented!() }
+}
+//@fn src/ecs/named_syscall.rs - register_named_system_from
+//@| ensures ({ let t = take_init_eff::<I, O>(*old(world), callback);
+//@|     &&& (t.1 is None ==> *final(world) == t.0)
+//@|     &&& (t.1 is Some ==> (same_but::<IdMappedSystems<I, O>>(t.0, *final(world)) && named::<I, O>(*final(world)) =~= named::<I, O>(t.0).insert(sys_name, Some(t.1->Some_0)))) }),
+//@thunk || IdMappedSystems::default() | ims_default | <I: Send + Sync + SystemInput + 'static, O: Send + Sync + 'static> | ::<I, O> | IdMappedSystems<I, O>
+//@lift| ensures r.systems.view() == Map::<SysName, Option<BoxedSystem<I, O>>>::empty(),
+
 } // verus!
 fn main() {}
